@@ -176,7 +176,7 @@ def run_certs(goals, tag, nshards=None, timeout=600):
     shutil.rmtree(d, ignore_errors=True)
     os.makedirs(d)
     if nshards is None:
-        nshards = max(1, min(4 * CERT_PROCS, len(goals) // 8 + 1))
+        nshards = max(1, min((2 if len(goals) < 2000 else 4) * CERT_PROCS, len(goals) // 8 + 1))    # ~1 s of start-up per shard
     shards = [[] for _ in range(nshards)]
     load = [0] * nshards
     for g in sorted(goals, key=lambda g: -g[0]):          # longest-processing-time-first balancing
